@@ -1,6 +1,7 @@
 package main
 
 import (
+	stdslog "log/slog"
 	"fmt"
 	"os"
 	"path/filepath"
@@ -38,8 +39,13 @@ func c18paths(c *Ctx) {
 		"/build/strip-this-prefix", "/mnt/vol1/users/alice/empty",
 		// prefixes that are not absolute (file names of a -trimpath build, a checkout next to the working directory, a
 		// drive-letter path seen on another system)
-		"github.com/acme/private", "../private-checkout", "C:/work/src"}
-	replPool := []string{"~d", "~p", "$SRV", "~w", "~alice", "CI:", "~deep", "~gosrc", "~work", "~tmp", "~u", "~bin", "~ws", "~stage", "~brace", "", "", "GH:acme", "~pc", "W:"}
+		"github.com/acme/private", "../private-checkout", "C:/work/src",
+		// long directory names (a CI workspace, a content-addressed store): 63, 64, 65, 128 and 300 bytes
+		"/ci/" + strings.Repeat("w", 59), "/ci/" + strings.Repeat("x", 60), "/ci/" + strings.Repeat("y", 61), "/store/" + strings.Repeat("0123456789abcdef", 7) + "/objects", "/deep/" + strings.Repeat("segment-of-a-long-path/", 12) + "end"}
+	replPool := []string{"~d", "~p", "$SRV", "~w", "~alice", "CI:", "~deep", "~gosrc", "~work", "~tmp", "~u", "~bin", "~ws", "~stage", "~brace", "", "", "GH:acme", "~pc", "W:", "~L63", "~L64", "~L65", "~store", "~long"}
+	if len(prefixPool) != len(replPool) {
+		panic("harness: prefixPool and replPool differ in length")
+	}
 	_ = os.Setenv("STAGE", "prod")
 	_ = os.Setenv("BUILD_7781_X", "")
 	rxPool := []rxMap{{expr: `^/mnt/vol[0-9]+/`, repl: "~vol/"}, {expr: `^/net/[a-z]+/export/`, repl: "~net/"}, {expr: `^/Users/[^/]+/`, repl: "~/"},
@@ -73,6 +79,13 @@ func c18paths(c *Ctx) {
 				c.R.Add("cases_after_a_chdir", 1)
 			}
 		}
+		// a log/slog handler and a std log bridge that were built while the privacy flag was OFF (an application that
+		// builds its front ends first and reads its configuration afterwards): the flags at the time of a record count
+		slog.RemoveFlags(slog.Lprivacypath)
+		fFront := Format(r.Intn(3))
+		frontLg := newRoot("p18front", fFront, w, slog.AlwaysLevel)
+		frontH := slog.NewSlogHandler(frontLg, &slog.HandlerOptions{NoColor: fFront != FColor, JSON: fFront == FJSON, Level: slog.PanicLevel})
+		frontBridge := slog.NewLogLogger(frontLg, slog.InfoLevel)
 		privacy, rxFlag := r.P(80), r.Bool()
 		if privacy {
 			slog.AddFlags(slog.Lprivacypath)
@@ -228,16 +241,32 @@ func c18paths(c *Ctx) {
 				c.R.Add("caller_fields_checked_after_a_flag_window", 1)
 			}
 			evs := capture(log, site)
-			slog.RemoveKnownPathMapping(srcDir)
-			if len(evs) == 1 {
-				if d, err := decodeRecord(f, evs[0].Data, true, true); err == nil {
-					file := d.Caller["file"]
-					c.R.Add("caller_fields_checked", 1)
-					if file == srcDir || strings.HasPrefix(file, srcDir+"/") || !(strings.HasPrefix(file, "~harness") || !filepath.IsAbs(file)) {
-						c.R.Violation(idx, "caller-field", "C18/caller-field/prefix-leak", fmt.Sprintf("caller.file = %q although %q is registered as a protected prefix", file, srcDir), map[string]any{"format": f.String()})
-					}
+			judgeCaller := func(how string, f Format, evs []mon.Event) bool {
+				if len(evs) != 1 {
+					return true
 				}
+				d, err := decodeRecord(f, evs[0].Data, true, true)
+				if err != nil {
+					return true
+				}
+				file := d.Caller["file"]
+				c.R.Add("caller_fields_checked", 1)
+				if file == srcDir || strings.HasPrefix(file, srcDir+"/") || !(strings.HasPrefix(file, "~harness") || !filepath.IsAbs(file)) {
+					c.R.Violation(idx, "caller-field", "C18/caller-field/prefix-leak/"+how, fmt.Sprintf("%s: caller.file = %q although %q is registered as a protected prefix and the privacy flag is on", how, file, srcDir), map[string]any{"format": f.String()})
+					return false
+				}
+				return true
 			}
+			ok := judgeCaller("native call", f, evs)
+			if ok {
+				sl := stdslog.New(frontH)
+				ok = judgeCaller("log/slog handler built before the flag was switched on", fFront, capture(log, func() { sl.Info("caller-path-probe") }))
+				c.R.Add("caller_fields_checked_through_front_ends_built_earlier", 1)
+			}
+			if ok {
+				judgeCaller("std log bridge built before the flag was switched on", fFront, capture(log, func() { frontBridge.Print("caller-path-probe") }))
+			}
+			slog.RemoveKnownPathMapping(srcDir)
 		}
 	})
 }
